@@ -41,6 +41,12 @@ def handleBlock (line : String) (toks : List String) : M Unit := do
       set { s with stack := s.forest :: s.stack, blocks := bi :: s.blocks, forest := f', idx := none,
                    maxRows := max s.maxRows (forestRows f'.numLeaves) }
       count "block" line (dels.length + adds.length > 0)
+      -- shape of the forest the block leaves behind: number of trees (roots) and rows
+      let nRoots := (treeRows f'.numLeaves).length
+      let rb := if nRoots ≤ 4 then "1-4" else if nRoots ≤ 8 then "5-8" else if nRoots ≤ 11 then "9-11" else "12-16"
+      count s!"dist:forest:roots:{rb}" ("roots " ++ line)
+      let rw := forestRows f'.numLeaves
+      count s!"dist:forest:rows:{if rw ≤ 8 then "0-8" else if rw ≤ 11 then "9-11" else "12-16"}" ("rows " ++ line)
     | _, _ => parseError line
   | _ => parseError line
 
